@@ -14,6 +14,8 @@ use sha2::{Digest, Sha256};
 use std::collections::{HashMap, HashSet};
 use std::path::{Path, PathBuf};
 
+use arbitrary::Unstructured;
+
 const ID: &str = "C07";
 
 #[derive(Debug, Clone, Serialize, Deserialize)]
@@ -28,6 +30,8 @@ pub enum Corr {
     /// (file pick, offset pick, number of bits 1..=8, seed)
     FlipBits(u16, u16, u8, u8),
     Overwrite(u16, u16, u8, u8),
+    /// (file pick, offset pick, bytes): arbitrary bytes written over the file content (coverage-guided stage)
+    OverwriteBytes(u16, u16, Vec<u8>),
     Truncate(u16, u16),
     Append(u16, u8, u8),
     DuplicateRecord(u16, u16),
@@ -355,6 +359,27 @@ fn apply_script(dir: &Path, other_dir: &Path, script: &[Corr], final_state: &Sta
                 let _ = std::fs::write(&f, &b);
                 desc.push(format!("overwrite {off}..{end} of {}", f.file_name().unwrap().to_string_lossy()));
             }
+            Corr::OverwriteBytes(fp, op, data) => {
+                let f = pick(*fp);
+                let (mut b, fr) = recs_of(&f);
+                if b.is_empty() || data.is_empty() {
+                    continue;
+                }
+                let off = idx(*op, b.len());
+                let end = (off + data.len().min(64)).min(b.len());
+                let mut changed = false;
+                for (x, y) in b[off..end].iter_mut().zip(data.iter()) {
+                    if *x != *y {
+                        changed = true;
+                    }
+                    *x = *y;
+                }
+                if changed && f.extension().map(|x| x == "wal").unwrap_or(false) && fr.iter().any(|(o, l)| off < o + l && end > *o) {
+                    must_report = true;
+                }
+                let _ = std::fs::write(&f, &b);
+                desc.push(format!("overwrite {off}..{end} of {} with given bytes", f.file_name().unwrap().to_string_lossy()));
+            }
             Corr::Truncate(fp, op) => {
                 let f = pick(*fp);
                 let (b, fr) = recs_of(&f);
@@ -599,6 +624,7 @@ fn run_case(c: &Case) -> Verdict {
             v.class(match d {
                 Corr::FlipBits(..) => "flip",
                 Corr::Overwrite(..) => "overwrite",
+                Corr::OverwriteBytes(..) => "overwrite_bytes",
                 Corr::Truncate(..) => "truncate",
                 Corr::Append(..) => "append",
                 Corr::DuplicateRecord(..) => "duplicate",
@@ -639,6 +665,7 @@ fn corr() -> impl Strategy<Value = Corr> {
     prop_oneof![
         5 => (any::<u16>(), any::<u16>(), 1u8..=8, any::<u8>()).prop_map(|(f, o, n, s)| Corr::FlipBits(f, o, n, s)),
         2 => (any::<u16>(), any::<u16>(), 1u8..=16, any::<u8>()).prop_map(|(f, o, l, b)| Corr::Overwrite(f, o, l, b)),
+        2 => (any::<u16>(), any::<u16>(), prop::collection::vec(any::<u8>(), 1..40)).prop_map(|(f, o, d)| Corr::OverwriteBytes(f, o, d)),
         3 => (any::<u16>(), any::<u16>()).prop_map(|(f, o)| Corr::Truncate(f, o)),
         2 => (any::<u16>(), 1u8..=64, any::<u8>()).prop_map(|(f, l, b)| Corr::Append(f, l, b)),
         2 => (any::<u16>(), any::<u16>()).prop_map(|(f, r)| Corr::DuplicateRecord(f, r)),
@@ -655,6 +682,71 @@ fn corr() -> impl Strategy<Value = Corr> {
 pub fn case() -> impl Strategy<Value = Case> {
     (prop_oneof![3 => 1u8..=9, 1 => Just(0u8)], prop::collection::vec(build_op(), 1..40), prop::collection::vec(build_op(), 1..12), prop_oneof![2 => prop::collection::vec(corr(), 1..=1), 1 => prop::collection::vec(corr(), 2..=3)]).prop_map(|(rotation, build, other, script)| Case { rotation, build, other, script })
 }
+// ---- byte decoder for the coverage-guided stage: same shapes and ranges as the strategies above ----------
+fn build_dec(u: &mut Unstructured) -> arbitrary::Result<BuildOp> {
+    Ok(match u.int_in_range(0u8..=14)? {
+        0..=9 => BuildOp::Upsert(u.int_in_range(0u8..=5)?, u.arbitrary()?),
+        10 | 11 => BuildOp::Delete(u.int_in_range(0u8..=5)?),
+        12 | 13 => {
+            let n = u.int_in_range(1usize..=3)?;
+            let mut ch = Vec::new();
+            for _ in 0..n {
+                ch.push((u.int_in_range(0u8..=5)?, if u.ratio(4u8, 5u8)? { Some(u.arbitrary()?) } else { None }));
+            }
+            BuildOp::Batch(ch)
+        }
+        _ => BuildOp::Checkpoint,
+    })
+}
+fn corr_dec(u: &mut Unstructured) -> arbitrary::Result<Corr> {
+    Ok(match u.int_in_range(0u8..=12)? {
+        0 => Corr::FlipBits(u.arbitrary()?, u.arbitrary()?, u.int_in_range(1u8..=8)?, u.arbitrary()?),
+        1 => Corr::Overwrite(u.arbitrary()?, u.arbitrary()?, u.int_in_range(1u8..=16)?, u.arbitrary()?),
+        2 => {
+            let (f, o) = (u.arbitrary()?, u.arbitrary()?);
+            let n = u.int_in_range(1usize..=64)?.min(u.len().max(1));
+            let mut d = u.bytes(n.min(u.len()))?.to_vec();
+            if d.is_empty() {
+                d.push(0);
+            }
+            Corr::OverwriteBytes(f, o, d)
+        }
+        3 => Corr::Truncate(u.arbitrary()?, u.arbitrary()?),
+        4 => Corr::Append(u.arbitrary()?, u.int_in_range(1u8..=64)?, u.arbitrary()?),
+        5 => Corr::DuplicateRecord(u.arbitrary()?, u.arbitrary()?),
+        6 => Corr::MoveRecord(u.arbitrary()?, u.arbitrary()?, u.arbitrary()?),
+        7 => Corr::Transplant(u.arbitrary()?, u.arbitrary()?),
+        8 => Corr::RewriteLength(u.arbitrary()?, u.arbitrary()?, u.int_in_range(0u8..=4)?),
+        9 => Corr::Resplit(u.arbitrary()?, u.arbitrary()?),
+        10 => Corr::DeleteFile(u.arbitrary()?),
+        11 => Corr::KeyFile(u.arbitrary()?),
+        _ => Corr::SnapHeader(u.arbitrary()?, u.arbitrary()?, u.arbitrary()?),
+    })
+}
+pub fn decode(data: &[u8]) -> Option<Case> {
+    let mut u = Unstructured::new(data);
+    let r: arbitrary::Result<Case> = (|| {
+        let rotation = if u.ratio(3u8, 4u8)? { u.int_in_range(1u8..=9)? } else { 0 };
+        // the damage script first, so that the fuzzer's first bytes steer it
+        let ns = if u.ratio(2u8, 3u8)? { 1 } else { u.int_in_range(2usize..=3)? };
+        let mut script = Vec::new();
+        for _ in 0..ns {
+            script.push(corr_dec(&mut u)?);
+        }
+        let (nb, no) = (u.int_in_range(1usize..=39)?, u.int_in_range(1usize..=11)?);
+        let mut build = Vec::new();
+        for _ in 0..nb {
+            build.push(build_dec(&mut u)?);
+        }
+        let mut other = Vec::new();
+        for _ in 0..no {
+            other.push(build_dec(&mut u)?);
+        }
+        Ok(Case { rotation, build, other, script })
+    })();
+    r.ok()
+}
+
 pub fn check(c: &Case) -> Verdict {
     run_case(c)
 }
